@@ -38,7 +38,7 @@ type Op struct {
 type Stats struct {
 	Delivered, Dropped, Dups, Own, Timeouts, Crashes, Restarts int
 	ByzProposals, ByzVotes, Equivocations, Splits, StalePolkas int
-	LateProposals, ByzClaims, Starved                          int
+	LateProposals, ByzClaims, Starved, NilRounds               int
 	MaxRound                                                   int64
 	Locked, Unlocked                                           bool
 	Reordered                                                  bool
@@ -260,6 +260,8 @@ func (d *Driver) Apply(op Op) bool {
 		return d.byzVote(op)
 	case "byzclaim":
 		return d.byzClaim(op)
+	case "nilrounds":
+		return d.NilRounds(op)
 	case "split":
 		return d.Split(op)
 	case "amnesia":
@@ -533,6 +535,77 @@ func (d *Driver) byzVote(op Op) bool {
 	}
 	d.logf("byzvote v%d t%d h%d r%d %x to %d nodes x%d", b.ID, typ, rs.Height, round, fp(bid.Hash), len(dst), copies)
 	d.Stats.ByzVotes++
+	return true
+}
+
+// NilRounds makes every live honest node go through A%12+1 rounds without a decision: the
+// proposals of those rounds are lost (an honest proposer's own proposal is dropped before it is
+// processed), everybody runs into the propose timeout, prevotes nil, sees +2/3 nil and precommits
+// nil. Long heights: many timeouts, many rounds in the WAL. Needs all honest nodes in one
+// height/round at a round's start and the honest nodes alone above two thirds.
+func (d *Driver) NilRounds(op Op) bool {
+	net := d.Net
+	hs := d.honestAlive()
+	if len(hs) == 0 {
+		return false
+	}
+	var total, honest int64
+	for i, p := range net.Cfg.Powers {
+		total += p
+		if net.Nodes[i].Honest && net.Nodes[i].Alive {
+			honest += p
+		}
+	}
+	if 3*honest <= 2*total {
+		return false
+	}
+	// bring everybody to the start of a height
+	if _, ok := d.quiesceAtNewHeight(); !ok {
+		return false
+	}
+	for _, n := range hs {
+		d.fireNewest(n) // NewHeight -> round 0
+	}
+	k := mod(op.A, 12) + 1
+	for r := 0; r < k; r++ {
+		H, R := hs[0].RS().Height, hs[0].RS().Round
+		for _, n := range hs {
+			if rs := n.RS(); rs.Height != H || rs.Round != R {
+				return r > 0
+			}
+			// the proposer's own proposal and parts never leave it
+			keep := n.Own[:0]
+			for _, m := range n.Own {
+				switch m.(type) {
+				case *pbft.ProposalMessage, *pbft.BlockPartMessage:
+					continue
+				}
+				keep = append(keep, m)
+			}
+			n.Own = keep
+		}
+		for _, n := range hs {
+			if n.RS().Step == pbft.RoundStepPropose {
+				d.fireNewest(n)
+			}
+			d.ownAll(n) // prevote nil
+		}
+		d.deliverWhere(func(fl Flight) bool { return isVoteOf(fl, types.VoteTypePrevote) && voteRound(fl) == R })
+		for _, n := range hs {
+			if n.RS().Step == pbft.RoundStepPrevoteWait {
+				d.fireNewest(n)
+			}
+			d.ownAll(n) // precommit nil
+		}
+		d.deliverWhere(func(fl Flight) bool { return isVoteOf(fl, types.VoteTypePrecommit) && voteRound(fl) == R })
+		for _, n := range hs {
+			if n.RS().Step == pbft.RoundStepPrecommitWait {
+				d.fireNewest(n)
+			}
+		}
+	}
+	d.Stats.NilRounds += k
+	d.logf("nilrounds: %d rounds without a decision", k)
 	return true
 }
 
